@@ -11,7 +11,9 @@ pub use crate::seqgen::*;
 
 use crate::env::*;
 use fibre_cache::error::ComputeResult;
+use futures_core::Stream;
 use std::collections::{BTreeMap, BTreeSet};
+use std::future::Future;
 use std::sync::atomic::{AtomicU64, Ordering};
 use std::sync::Arc;
 use std::time::Duration;
@@ -92,7 +94,15 @@ struct Run {
   /// a shard ever had more than its 512-slot buffer holds (diagnosis for over-capacity findings)
   pending: Vec<u32>,
   overflowed: bool,
+  /// `Op::Contend`: the next future driven on the async handle is polled once under held shard locks
+  contend: std::cell::Cell<bool>,
+  /// one key nobody uses per shard that has one (sync `entry()` on it = that shard's write lock)
+  hold_keys: Vec<u32>,
+  contended_pending: std::cell::Cell<u64>,
+  contended_ready: std::cell::Cell<u64>,
 }
+
+pub const HOLD_BASE: u32 = 3_000_000_000;
 
 fn fail(prop: &str, api: &str, clause: &str, msg: String) -> Failure {
   Failure::new(prop, format!("E1/cache/{api}/{clause}"), msg)
@@ -212,7 +222,47 @@ impl Run {
       sync_from: 0,
       pending: vec![0; s.cfg.shards],
       overflowed: false,
+      contend: std::cell::Cell::new(false),
+      hold_keys: {
+        let mut v: Vec<Option<u32>> = vec![None; s.cfg.shards];
+        for i in 0..4096u32 {
+          let k = HOLD_BASE + i;
+          let sh = key_hash(s.cfg.collide, k) as usize & (s.cfg.shards - 1);
+          if v[sh].is_none() {
+            v[sh] = Some(k);
+          }
+        }
+        v.into_iter().flatten().collect()
+      },
+      contended_pending: std::cell::Cell::new(0),
+      contended_ready: std::cell::Cell::new(0),
     }
+  }
+
+  // ---- contended-lock axis of the async API -------------------------------------------------------
+
+  /// Drives a future of the async handle to completion.  After `Op::Contend` the first poll happens
+  /// while this thread holds the write lock of every shard (sync `entry()` guards on keys nobody uses,
+  /// dropped without inserting): the future finds its shard contended, returns Pending and is woken
+  /// by the release.  Never used for operations that take a *blocking* shard lock inside their
+  /// future (run_maintenance; anything under maintenance_on_introspection).
+  fn drive<F: std::future::Future>(&self, f: F) -> F::Output {
+    let mut f = std::pin::pin!(f);
+    if self.contend.replace(false) && !self.cfg.introspect {
+      let guards: Vec<_> = self.hold_keys.iter().map(|k| self.cache.entry(*k)).collect();
+      let waker = thread_waker();
+      let mut cx = std::task::Context::from_waker(&waker);
+      let r = f.as_mut().poll(&mut cx);
+      drop(guards);
+      match r {
+        std::task::Poll::Ready(v) => {
+          self.contended_ready.set(self.contended_ready.get() + 1);
+          return v;
+        }
+        std::task::Poll::Pending => self.contended_pending.set(self.contended_pending.get() + 1),
+      }
+    }
+    block_on(f)
   }
 
   // ---- model helpers ---------------------------------------------------------------------
@@ -517,8 +567,8 @@ impl Run {
     match (a, ttl_ms) {
       (false, None) => self.cache.insert(k, v, cost),
       (false, Some(t)) => self.cache.insert_with_ttl(k, v, cost, Duration::from_millis(t)),
-      (true, None) => block_on(self.ac.insert(k, v, cost)),
-      (true, Some(t)) => block_on(self.ac.insert_with_ttl(k, v, cost, Duration::from_millis(t))),
+      (true, None) => self.drive(self.ac.insert(k, v, cost)),
+      (true, Some(t)) => self.drive(self.ac.insert_with_ttl(k, v, cost, Duration::from_millis(t))),
     }
     self.wrote(k, wid, cost, deadline, self.now);
     if self.cfg.maint_always {
@@ -530,7 +580,7 @@ impl Run {
     let api = hs(a, if inval { "invalidate" } else { "remove" });
     let got: Option<Option<Val>> = match (a, inval) {
       (false, false) => Some(self.cache.remove(&k).map(|v| (*v).clone())),
-      (true, false) => Some(block_on(self.ac.remove(&k)).map(|v| (*v).clone())),
+      (true, false) => Some(self.drive(self.ac.remove(&k)).map(|v| (*v).clone())),
       (false, true) => {
         if self.cache.invalidate(&k) {
           None
@@ -539,7 +589,7 @@ impl Run {
         }
       }
       (true, true) => {
-        if block_on(self.ac.invalidate(&k)) {
+        if self.drive(self.ac.invalidate(&k)) {
           None
         } else {
           Some(None)
@@ -592,7 +642,7 @@ impl Run {
       };
       (*r).clone()
     } else {
-      let e = block_on(self.ac.entry(k));
+      let e = self.drive(self.ac.entry(k));
       let r = match form % 3 {
         0 => e.or_insert(v, cost),
         1 => e.or_insert_with(|| v, cost),
@@ -619,6 +669,79 @@ impl Run {
       // occupied: a read through the entry API (C11 / C12 "every read API including entry")
       self.check_read(&api, k, Some(&got), Refresh::Possible)
     }
+  }
+
+  /// async `multi_remove` / `multi_invalidate` cancelled while it waits for a contended shard: the
+  /// interpreter holds one shard's write lock, polls the future once and drops it.  Keys of the other
+  /// shards may have been removed; whatever was removed must be notified (C16) and must not come back.
+  fn do_cancelled_multi_remove(&mut self, keys: &[u32], hold: u16, inval: bool) -> Result<(), Failure> {
+    let api = "async.multi_remove.cancelled";
+    if self.cfg.introspect || self.hold_keys.is_empty() {
+      return Ok(());
+    }
+    let hk = self.hold_keys[vcore::idx(hold, self.hold_keys.len())];
+    let before: BTreeMap<u32, u64> = keys.iter().filter_map(|k| self.live.get(k).map(|w| (*k, *w))).collect();
+    let finished: Option<Vec<(u32, Val)>> = {
+      let guard = self.cache.entry(hk);
+      let waker = thread_waker();
+      let mut cx = std::task::Context::from_waker(&waker);
+      let r = if inval {
+        let mut f = std::pin::pin!(self.ac.multi_invalidate(keys.to_vec()));
+        match f.as_mut().poll(&mut cx) {
+          std::task::Poll::Ready(()) => Some(None),
+          std::task::Poll::Pending => None,
+        }
+      } else {
+        let mut f = std::pin::pin!(self.ac.multi_remove(keys.to_vec()));
+        match f.as_mut().poll(&mut cx) {
+          std::task::Poll::Ready(v) => Some(Some(v.into_iter().map(|(k, v)| (k, (*v).clone())).collect::<Vec<_>>())),
+          std::task::Poll::Pending => None,
+        }
+      };
+      // (the future is dropped here, before the guard is released)
+      drop(guard);
+      match r {
+        Some(Some(v)) => Some(v),
+        _ => None,
+      }
+    };
+    self.rep.class(if finished.is_some() { "cancelled_multi_remove:completed_on_first_poll" } else { "cancelled_multi_remove:dropped_while_pending" });
+    if let Some(got) = &finished {
+      // it completed: the returned pairs are reads of the register (C11)
+      for (k, v) in got {
+        if v.key != *k || before.get(k) != Some(&v.wid) {
+          return Err(fail("C11", api, "returned_dead_value", format!("multi_remove returned ({k}, {v:?}); live before: {:?}", before.get(k))));
+        }
+      }
+    }
+    // which keys are gone is observed (peek refreshes nothing); a key that is gone although it cannot
+    // have expired or been evicted was removed by this call: C16 "every removal caused by
+    // remove/invalidate ... is notified" — also when the caller stopped waiting for the rest
+    for (k, wid) in &before {
+      let now_there = self.cache.peek(k).map(|v| v.wid) == Some(*wid);
+      if now_there {
+        if finished.is_some() {
+          let w = self.w[wid].clone();
+          if !self.possibly_expired(&w) {
+            return Err(fail("C11", api, "removed_value_still_readable", format!("multi_remove completed but key {k} write {wid} is still readable")));
+          }
+        }
+        continue;
+      }
+      let w = self.w[wid].clone();
+      if self.possibly_expired(&w) && finished.is_none() {
+        // invisible because expired; whether the cancelled call took it out is not observable: the model
+        // keeps it (reads of a possibly expired entry may return nothing)
+        continue;
+      }
+      if !self.possibly_expired(&w) && !self.cfg.may_forget() {
+        self.removed_by_op.push((*k, *wid));
+      } else {
+        self.removed_maybe.push((*k, *wid));
+      }
+      self.kill(*k, WState::Removed);
+    }
+    Ok(())
   }
 
   fn do_compute(&mut self, a: bool, k: u32, form: u8) -> Result<(), Failure> {
@@ -659,7 +782,7 @@ impl Run {
       (false, 2) => cr(self.cache.compute_val(&k, |v| bump(v))),
       (false, _) => cr(self.cache.try_compute_val(&k, |v| bump(v))),
       (true, 0) => {
-        if block_on(self.ac.compute(&k, |v| {
+        if self.drive(self.ac.compute(&k, |v| {
           bump(v);
         })) {
           Out::Done(None)
@@ -667,15 +790,15 @@ impl Run {
           Out::NotFound
         }
       }
-      (true, 1) => match block_on(self.ac.try_compute(&k, |v| {
+      (true, 1) => match self.drive(self.ac.try_compute(&k, |v| {
         bump(v);
       })) {
         Some(true) => Out::Done(None),
         Some(false) => Out::Busy,
         None => Out::NotFound,
       },
-      (true, 2) => cr(block_on(self.ac.compute_val(&k, |v| bump(v)))),
-      (true, _) => cr(block_on(self.ac.try_compute_val(&k, |v| bump(v)))),
+      (true, 2) => cr(self.drive(self.ac.compute_val(&k, |v| bump(v)))),
+      (true, _) => cr(self.drive(self.ac.try_compute_val(&k, |v| bump(v)))),
     };
     let cur = self.live.get(&k).copied();
     match out {
@@ -738,7 +861,7 @@ impl Run {
     // (side-effect free here: configurations with a sync loader and a grace window never enable
     // maintenance_on_introspection)
     let inserts_before = if self.cfg.loader == LoaderKind::Sync && self.cfg.swr_ms.is_some() { self.cache.metrics().inserts } else { 0 };
-    let got: Val = if a { (*block_on(self.ac.fetch_with(&k))).clone() } else { (*self.cache.fetch_with(&k)).clone() };
+    let got: Val = if a { (*self.drive(self.ac.fetch_with(&k))).clone() } else { (*self.cache.fetch_with(&k)).clone() };
     if let Some(ex) = &self.exec {
       if !ex.wait_idle(Duration::from_secs(20)) {
         self.inconclusive += 1;
@@ -900,7 +1023,7 @@ impl Run {
     s.len()
   }
 
-  fn do_iter(&mut self, kind: IterKind, batch_i: u8, adv: Option<(u16, Adv)>) -> Result<(), Failure> {
+  fn do_iter(&mut self, kind: IterKind, batch_i: u8, adv: Option<(u16, Adv)>, held_at: &[u16]) -> Result<(), Failure> {
     let batch = BATCHES[batch_i as usize % 6];
     let api = format!("{kind:?}").to_lowercase();
     let t0 = self.now;
@@ -949,6 +1072,22 @@ impl Run {
         let mut st = if batch == 0 { self.ac.iter_stream() } else { self.ac.iter_stream_with_batch_size(batch) };
         loop {
           step!();
+          if held_at.contains(&(items.len() as u16)) && !self.cfg.introspect {
+            // contended refill: every shard is write-locked by this thread for one poll
+            let guards: Vec<_> = self.hold_keys.iter().map(|k| self.cache.entry(*k)).collect();
+            let waker = thread_waker();
+            let mut cx = std::task::Context::from_waker(&waker);
+            let r = std::pin::Pin::new(&mut st).poll_next(&mut cx);
+            drop(guards);
+            match r {
+              std::task::Poll::Ready(Some((k, v))) => {
+                items.push((k, (*v).clone()));
+                continue;
+              }
+              std::task::Poll::Ready(None) => break,
+              std::task::Poll::Pending => self.rep.class("stream_refill_pending_on_held_shard"),
+            }
+          }
           match stream_next(&mut st) {
             Some((k, v)) => items.push((k, (*v).clone())),
             None => break,
@@ -967,7 +1106,7 @@ impl Run {
         }
       }
       IterKind::ToSnapshot | IterKind::ToSnapshotAsync => {
-        let snap = if kind == IterKind::ToSnapshot { self.cache.to_snapshot() } else { block_on(self.ac.to_snapshot()) };
+        let snap = if kind == IterKind::ToSnapshot { self.cache.to_snapshot() } else { self.drive(self.ac.to_snapshot()) };
         let js = serde_json::to_value(&snap).expect("snapshot serialises");
         for e in js["entries"].as_array().cloned().unwrap_or_default() {
           let v: Val = serde_json::from_value(e["value"].clone()).expect("value");
@@ -1112,7 +1251,7 @@ impl Run {
 
   // ---- snapshot / restore (C17) ------------------------------------------------------------------
 
-  fn do_restore(&mut self, fmt: u8, pol: Pol, extra: &[(u32, u8)], lifetimes: bool, asnap: bool) -> Result<(), Failure> {
+  fn do_restore(&mut self, fmt: u8, pol: Pol, extra: &[(u32, u8)], lifetimes: bool, asnap: bool, abuild: bool, bcap: bool) -> Result<(), Failure> {
     use fibre_cache::snapshot::CacheSnapshot;
     let api = match fmt % 3 {
       0 => "restore.direct",
@@ -1121,7 +1260,7 @@ impl Run {
     };
     let t0 = self.now;
     let janitor_before = self.janitor_mark();
-    let snap: CacheSnapshot<u32, Val> = if asnap { block_on(self.ac.to_snapshot()) } else { self.cache.to_snapshot() };
+    let snap: CacheSnapshot<u32, Val> = if asnap { self.drive(self.ac.to_snapshot()) } else { self.cache.to_snapshot() };
     let js = serde_json::to_value(&snap).expect("snapshot serialises");
     let snap = match fmt % 3 {
       0 => snap,
@@ -1148,8 +1287,17 @@ impl Run {
       b = b.time_to_idle(Duration::from_millis(t));
     }
     b = apply_policy(b, pol, self.cfg.capacity, self.cfg.shards);
-    let c2 = b.build_from_snapshot(snap).expect("restore builds");
+    // the builder either leaves its capacity at the default (what the documentation shows: the snapshot's
+    // capacity applies) or states the very capacity the snapshot carries; both sync and async entry points
+    if bcap {
+      b = match self.cfg.capacity {
+        Some(c) => b.capacity(c),
+        None => b.unbounded(),
+      };
+    }
+    let c2: TCache = if abuild { b.build_from_snapshot_async(snap).expect("restore builds").to_sync() } else { b.build_from_snapshot(snap).expect("restore builds") };
     self.rep.class(format!("restore:{}", pol.name()));
+    self.rep.class(if abuild { "restore:async_entry_point" } else { "restore:sync_entry_point" });
     // C17: "A cache rebuilt from a snapshot, also after a serialization round trip, returns the same
     // key to value mapping with the same costs"
     let mut expect_cost = 0u64;
@@ -1259,7 +1407,7 @@ impl Run {
       }
       Op::Clear { a } => {
         if *a {
-          block_on(self.ac.clear());
+          self.drive(self.ac.clear());
         } else {
           self.cache.clear();
         }
@@ -1277,7 +1425,7 @@ impl Run {
           triples.push((*k, v, self.cfg.cost(*c)));
         }
         if *a {
-          block_on(self.ac.multi_insert(triples));
+          self.drive(self.ac.multi_insert(triples));
         } else {
           let c = self.cache.clone();
           self.pool.install(move || c.multi_insert(triples));
@@ -1296,7 +1444,7 @@ impl Run {
             let ks = keys.clone();
             Some(self.pool.install(move || c.multi_remove(ks)).into_iter().map(|(k, v)| (k, (*v).clone())).collect())
           }
-          (true, false) => Some(block_on(self.ac.multi_remove(keys.clone())).into_iter().map(|(k, v)| (k, (*v).clone())).collect()),
+          (true, false) => Some(self.drive(self.ac.multi_remove(keys.clone())).into_iter().map(|(k, v)| (k, (*v).clone())).collect()),
           (false, true) => {
             let c = self.cache.clone();
             let ks = keys.clone();
@@ -1304,7 +1452,7 @@ impl Run {
             None
           }
           (true, true) => {
-            block_on(self.ac.multi_invalidate(keys.clone()));
+            self.drive(self.ac.multi_invalidate(keys.clone()));
             None
           }
         };
@@ -1345,20 +1493,20 @@ impl Run {
       Op::Compute { a, k, form } => self.do_compute(*a, *k, *form)?,
       Op::FetchWith { a, k } => self.do_fetch_with(*a, *k)?,
       Op::Get { a, k } => {
-        let g = if *a { block_on(self.ac.get(k, |v| v.clone())) } else { self.cache.get(k, |v| v.clone()) };
+        let g = if *a { self.drive(self.ac.get(k, |v| v.clone())) } else { self.cache.get(k, |v| v.clone()) };
         self.check_read(&hs(*a, "get"), *k, g.as_ref(), Refresh::Definite)?;
       }
       Op::Fetch { a, k } => {
-        let g = if *a { block_on(self.ac.fetch(k)) } else { self.cache.fetch(k) }.map(|v| (*v).clone());
+        let g = if *a { self.drive(self.ac.fetch(k)) } else { self.cache.fetch(k) }.map(|v| (*v).clone());
         self.check_read(&hs(*a, "fetch"), *k, g.as_ref(), Refresh::Definite)?;
       }
       Op::Peek { a, k } => {
-        let g = if *a { block_on(self.ac.peek(k)) } else { self.cache.peek(k) }.map(|v| (*v).clone());
+        let g = if *a { self.drive(self.ac.peek(k)) } else { self.cache.peek(k) }.map(|v| (*v).clone());
         self.check_read(&hs(*a, "peek"), *k, g.as_ref(), Refresh::No)?;
       }
       Op::EntryGet { a, k } => {
         let g: Option<Val> = if *a {
-          match block_on(self.ac.entry(*k)) {
+          match self.drive(self.ac.entry(*k)) {
             fibre_cache::AsyncEntry::Occupied(o) => Some((*o.get()).clone()),
             fibre_cache::AsyncEntry::Vacant(_) => None,
           }
@@ -1373,7 +1521,7 @@ impl Run {
       Op::MultiGet { a, keys } => {
         let api = hs(*a, "multiget");
         let got: BTreeMap<u32, Val> = if *a {
-          block_on(self.ac.multiget::<Vec<u32>, u32>(keys.clone())).into_iter().map(|(k, v)| (k, (*v).clone())).collect()
+          self.drive(self.ac.multiget::<Vec<u32>, u32>(keys.clone())).into_iter().map(|(k, v)| (k, (*v).clone())).collect()
         } else {
           let c = self.cache.clone();
           let ks = keys.clone();
@@ -1389,8 +1537,8 @@ impl Run {
           self.check_read(&api, k, got.get(&k), Refresh::Definite)?;
         }
       }
-      Op::Iter { kind, batch, adv } => {
-        self.do_iter(*kind, *batch, *adv)?;
+      Op::Iter { kind, batch, adv, held_at } => {
+        self.do_iter(*kind, *batch, *adv, held_at)?;
         flush = self.cfg.introspect;
       }
       Op::Maint { a } => {
@@ -1449,12 +1597,22 @@ impl Run {
         self.rep.class(format!("bulk:{n}"));
         flush = self.cfg.maint_always;
       }
-      Op::Restore { fmt, pol, extra, lifetimes, asnap } => {
-        self.do_restore(*fmt, *pol, extra, *lifetimes, *asnap)?;
+      Op::Restore { fmt, pol, extra, lifetimes, asnap, abuild, bcap } => {
+        self.do_restore(*fmt, *pol, extra, *lifetimes, *asnap, *abuild, *bcap)?;
         flush = self.cfg.introspect;
       }
       Op::Quiesce => self.do_quiesce("C13", "quiesce")?,
+      Op::Contend => {
+        self.contend.set(true);
+        return Ok(());
+      }
+      Op::CancelMultiRemove { keys, hold, inval } => {
+        self.do_cancelled_multi_remove(keys, *hold, *inval)?;
+        flush = true;
+      }
     }
+    // (Contend applies to the operation that follows it only)
+    self.contend.set(false);
     if self.live.len() > 100 {
       self.burst = true;
     }
@@ -1468,6 +1626,12 @@ impl Run {
 
   fn finish(&mut self) -> Result<(), Failure> {
     self.op_i += 1;
+    if self.contended_pending.get() > 0 {
+      self.rep.class("contended_async_op_went_pending");
+    }
+    if self.contended_ready.get() > 0 {
+      self.rep.class("contended_async_op_ready_at_once");
+    }
     self.do_quiesce("C13", "quiesce")?;
     self.sync_listener("end")?;
     if let Some(rec) = &self.rec {
